@@ -422,3 +422,5 @@ def check(ctx):
     import_rules(ctx, "c05", {"field-position"})
     # ... and the slot walk steps by the size stored in every slot, free ones included
     import_rules(ctx, "c06", {"free-slot-field-position", "class-slot", "push-pop-inverse"})
+    # a statistics call that answers Err for a legitimate structure does not report it
+    import_rules(ctx, "c08", {"refusal"})
